@@ -47,8 +47,9 @@ Definition u32_max : N := 4294967295.
 (* u32::try_from(n).unwrap_or(u32::MAX) *)
 Definition u32_of_usize (n : nat) : N := let x := N.of_nat n in if x <=? u32_max then x else u32_max.
 Definition sat_add32 (a b : N) : N := N.min (a + b) u32_max.
-(* i32 wrap of the block comment depth counter *)
-Definition wrap_i32 (z : Z) : Z := ((z + 2147483648) mod 4294967296 - 2147483648)%Z.
+(* the block comment depth counter is a usize (fix ac45016; it was an inferred i32): wrapping arithmetic on 64 bits.
+   It counts at most one opener per two bytes, so on a real input (a slice is shorter than 2^63 bytes) it never wraps. *)
+Definition wrap_usize (z : Z) : Z := (z mod 18446744073709551616)%Z.
 
 (* ---------------------------------------------------------------- str / slice primitives *)
 Definition slice_from (site : N) (d : str) (n : nat) : outcome str :=
@@ -109,8 +110,8 @@ Fixpoint block_go (l : str) (p start : nat) (depth : Z) : option nat :=
   match l with
   | b :: ((nx :: _) as rest) =>
       let '(start', depth') :=
-        if (b =? 47) && (start <=? p)%nat && (nx =? 42) then (p + 2, wrap_i32 (depth + 1))%nat
-        else if (b =? 42) && (start <=? p)%nat && (nx =? 47) then (p + 2, wrap_i32 (depth - 1))%nat
+        if (b =? 47) && (start <=? p)%nat && (nx =? 42) then (p + 2, wrap_usize (depth + 1))%nat
+        else if (b =? 42) && (start <=? p)%nat && (nx =? 47) then (p + 2, wrap_usize (depth - 1))%nat
         else (start, depth) in
       if (depth' =? 0)%Z then Some (p - 2)%nat else block_go rest (S p) start' depth'
   | _ => None
